@@ -225,7 +225,8 @@ T_OpEnd == /\ IsEvent("op_end")
               /\ G("oe.n", cli[c].n = E.n)
               /\ IF E.res = "cancelled"
                  THEN \* polled once, still pending, dropped: the spec must agree that it could not complete yet
-                      /\ G("oe.cancel." \o cli[c].op, cli[c].stage # "idle" /\ ~ClientContEnabled(c))
+                      \* (a task queued for the registry lock may still be suspended although the lock is free: see T_Block)
+                      /\ G("oe.cancel." \o cli[c].op, cli[c].stage # "idle" /\ (~ClientContEnabled(c) \/ cli[c].stage = "reglock"))
                       /\ Abandon(c) /\ UNCHANGED <<cur, yl>>
                  ELSE IF cli[c].stage = "idle"
                  THEN LastMatches(cli[c].op, cli[c].last) /\ UNCHANGED vars
